@@ -111,11 +111,18 @@ Definition k3_both_selfloop (st : store) (q : query) : bool :=
 (** K4: a variable-length edge pattern whose minimum is 0 *)
 Definition k4_zero_hops (q : query) : bool :=
   existsb (fun h => match h_len h with HVar O _ => true | _ => false end) (hops q).
-(** K5: RETURN DISTINCT (ReturnOp.distinct is never planned) *)
+(** K5 (repaired by 36a1196): RETURN DISTINCT (ReturnOp.distinct was never planned) *)
 Definition k5_return_distinct (q : query) : bool :=
   match q_ret q with RPlain _ true => true | _ => false end.
-(** K6: GQL applies SKIP/LIMIT below ORDER BY, DISTINCT and aggregation *)
+(** K6: GQL applies SKIP/LIMIT below RETURN, hence before DISTINCT.  ([k6_gql_limit_first_pre]:
+    before ce12a2a also before ORDER BY and before aggregation) *)
 Definition k6_gql_limit_first (l : lang) (q : query) : bool :=
+  match l with
+  | LGql => (match q_skip q, q_limit q with None, None => false | _, _ => true end)
+            && (match q_ret q with RPlain _ true => true | _ => false end)
+  | _ => false
+  end.
+Definition k6_gql_limit_first_pre (l : lang) (q : query) : bool :=
   match l with
   | LGql => (match q_skip q, q_limit q with None, None => false | _, _ => true end)
             && (match q_order q, q_ret q with
@@ -314,10 +321,10 @@ Definition k12_cypher_count (l : lang) (q : query) : bool :=
   | _, _ => false
   end.
 
-(** C08-K13: count/sum/min/max results travel in Int64 vectors and avg results in Float64 vectors
-    (plan_aggregate l.1661-1680): a string or float minimum and every NULL after the first become
-    0.  The class is exact on the declarative answer: pushing the answer's own rows through vectors
-    of those types changes them. *)
+(** C08-K13 (repaired by 41c4655 + dfd360c): count/sum/min/max results travelled in Int64 vectors and
+    avg results in Float64 vectors whose validity bitmap recorded only the first null: a string or
+    float minimum and every NULL after the first became 0.  The class is exact on the declarative
+    answer: pushing the answer's own rows through the pre-repair vectors changes them. *)
 Definition rows_eqb (a b : list (list val)) : bool :=
   (fix go (a b : list (list val)) : bool :=
      match a, b with
@@ -325,12 +332,27 @@ Definition rows_eqb (a b : list (list val)) : bool :=
      | x :: xs, y :: ys => row_vals_eqb x y && go xs ys
      | _, _ => false
      end) a b.
+Fixpoint push_row_pre (tys : list coltype) (seen : list bool) (r : row) : row * list bool :=
+  match r, tys, seen with
+  | c :: r', ty :: tys', sn :: seen' =>
+      let '(c', sn') := push_typed_pre ty sn c in
+      let '(r'', seen'') := push_row_pre tys' seen' r' in
+      (c' :: r'', sn' :: seen'')
+  | _, _, _ => (r, seen)
+  end.
+Fixpoint push_rows_pre (tys : list coltype) (seen : list bool) (rs : list row) : list row :=
+  match rs with
+  | [] => []
+  | r :: rest => let '(r', seen') := push_row_pre tys seen r in r' :: push_rows_pre tys seen' rest
+  end.
+Definition typed_rows_pre (tys : list coltype) (rs : list row) : list row :=
+  push_rows_pre tys (map (fun _ => false) tys) rs.
 Definition k13_typed_result (st : store) (q : query) : bool :=
   match q_ret q with
   | RAgg keys aggs =>
       match answer st (mkQ (q_pat q) (q_where q) (q_ret q) [] None None) with
       | Ok rs => negb (rows_eqb (map (map cell_val)
-                                     (typed_rows (map (fun _ => TGen) keys ++ map agg_coltype aggs) (map (map CVal) rs))) rs)
+                                     (typed_rows_pre (map (fun _ => TGen) keys ++ map agg_coltype_pre aggs) (map (map CVal) rs))) rs)
       | Err => false
       end
   | _ => false
